@@ -139,7 +139,10 @@ PROPS.update({
     },
     "C16": {
         "modules": ["VmMem.Props.C16"], "theorems": T("C16"),
-        "runs": lambda tier: runs_slice(tier, streams=True) + runs_gm(tier, ["mixed"], chk=False),
+        # (the schedule scenarios of the atomic world are included: a page that turns dirty again after a harvest without a
+        #  write is an over-mark, even if it takes a race between a write and the harvest to produce it)
+        "runs": lambda tier: runs_slice(tier, streams=True) + runs_gm(tier, ["mixed"], chk=False)
+        + [{"world": "atomic", "n": 1000 if tier == "quick" else 20000, "opts": [] if tier == "quick" else ["thorough"], "proj": {"ops": ["none"]}}],
         "trusted_base": ["C09 (bitmap refines a page set)"],
         "assumptions": ["precision is relative to the byte count the operation reports"],
     },
@@ -183,7 +186,10 @@ PROPS.update({
     },
     "C06": {
         "modules": ["VmMem.Props.C06"], "theorems": T("C06"),
-        "runs": lambda tier: [{"world": "copy", "n": 3000 if tier == "quick" else 200000, "opts": [] if tier == "quick" else ["tear"]}],
+        "runs": lambda tier: [{"world": "copy", "n": 3000 if tier == "quick" else 200000, "opts": [] if tier == "quick" else ["tear"]}]
+        # the atomic load/store of every atomic type (user-defined packed ones included) at every base alignment: slice world
+        + [{"world": "slice", "n": 30000 if tier == "quick" else 600000, "opts": [], "seed_off": 23,
+            "proj": {"ops": ["s.store", "s.load", "s.aref", "s.new", "s.sub", "s.off", "s.split", "s.gsl"], "drop": ["d=", "h="]}}],
         "trusted_base": ["hardware: an aligned 1/2/4/8-byte volatile access is single-copy atomic on x86-64/aarch64 and is not split by the compiler",
                          "AtomicInteger::load/store are std atomics (orderings are std's)", "hook H1 records every copy_single / bulk copy (hooks are add-only, reviewed)"],
         "assumptions": ["PARTIAL for the schedules quantifier: the proof shows exactly one access of the right width; that one access is not torn is a hardware fact; "
